@@ -334,7 +334,7 @@ Lemma polydiv_loop_eq (BODY : list (T A) * list (T A) * nat -> res (wout (list (
       (v : list (T A)) :
   (forall q r count, BODY (q, r, count) =
       if is_zero r || (length r <? length v) then Ok (WDone (q, r, count)) else
-      let* qr := polydiv_body true q r v in
+      let* qr := polydiv_body q r v in
       if POLYDIV_MAX <? S count then Ok (WRet (inr EMaxIter)) else Ok (WNext (fst qr, snd qr, S count))) ->
   forall fuel count q r, fuel + count = S POLYDIV_MAX -> 1 <= fuel ->
   (let* o := while_ret fuel BODY (q, r, count) in
@@ -342,19 +342,19 @@ Lemma polydiv_loop_eq (BODY : list (T A) * list (T A) * nat -> res (wout (list (
    | Some (inl (q_, r_, _)) => Ok (inl (q_, r_))
    | Some (inr x) => Ok x
    | None => Ok (inr EMaxIter)
-   end) = polydiv_loop true fuel count q r v.
+   end) = polydiv_loop fuel count q r v.
 Proof.
   intros HB fuel. induction fuel as [|f IH]; intros count q r Hs Hf; [lia|].
   cbn [while_ret polydiv_loop]. rewrite HB.
   destruct (is_zero r || (length r <? length v)); cbn [bind]; [reflexivity|].
-  destruct (polydiv_body true q r v) as [[q' r']|k]; cbn [bind fst snd]; [|reflexivity].
+  destruct (polydiv_body q r v) as [[q' r']|k]; cbn [bind fst snd]; [|reflexivity].
   destruct (Nat.ltb_spec POLYDIV_MAX (S count)) as [L|L]; cbn [bind]; [reflexivity|].
   apply IH; lia.
 Qed.
 
 Lemma src_polydiv (u v : list (T A)) : s_polydiv u v = polydiv u v.
 Proof.
-  unfold s_polydiv, polydiv, polydiv_gen.
+  unfold s_polydiv, polydiv.
   destruct (length v =? 0) eqn:Ev; [reflexivity|]. destruct (is_zero v) eqn:Zv; [reflexivity|].
   cbv zeta. change 1000 with POLYDIV_MAX.
   match goal with |- context [while_ret _ ?B _] => set (BODY := B) end.
@@ -375,4 +375,21 @@ Proof.
   apply bind_ext; intros r3. rewrite ?bind_assoc. apply bind_ext; intros q3.
   cbn [bind fst snd]. rewrite Nat.add_1_r. reflexivity.
 Qed.
+(* all of them at once: what a Props file pins as  model_is_source_<property>  *)
+Definition model_is_source_Poly : Prop :=
+  (forall p, s_pneg p = Ok (pneg p)) /\
+  (forall p s, s_pscale p s = Ok (pscale p s)) /\
+  (forall p x n, s_pderiv_at p x n = pderiv_at p x n) /\
+  (forall p n, s_pderiv_n p n = pderiv_n p n) /\
+  (forall p x, s_peval p x = peval p x) /\
+  (forall p q, s_padd p q = Ok (padd p q)) /\
+  (forall p q, s_psub p q = Ok (psub p q)) /\
+  (forall p, s_pderiv p = pderiv p) /\
+  (forall p q, s_pmul p q = Ok (pmul p q)) /\
+  (forall (p : list (T A)), s_is_zero p = Ok (is_zero p)) /\
+  (forall (p : list (T A)), s_ptrim p = ptrim p) /\
+  (forall (u v : list (T A)), s_polydiv u v = polydiv u v).
+Lemma model_is_source_Poly_lemma : model_is_source_Poly.
+Proof. exact (conj src_pneg (conj src_pscale (conj src_pderiv_at (conj src_pderiv_n (conj src_peval (conj src_padd (conj src_psub (conj src_pderiv (conj src_pmul (conj src_is_zero (conj src_ptrim src_polydiv))))))))))). Qed.
+
 End SrcEqPoly.
